@@ -16,3 +16,23 @@ package db
 //@ extern bytes.Compare
 //@   pure
 //@   ensures result == bytes_cmp(mem(a), off(a), len(a), mem(b), off(b), len(b))
+
+//@ extern strings.Compare
+//@   pure
+//@   ensures result == str_cmp3(a, b)
+
+// TrimRight(s, cutset): with the one-byte cutset " " it removes trailing 0x20 bytes only.
+//@ extern strings.TrimRight
+//@   pure
+//@   ensures is_space_set(cutset) ==> result == rtrim_sp(s)
+//@   ensures !is_space_set(cutset) ==> result == trim_right(s, cutset)
+
+// Map(f, s): for valid UTF-8 and a mapping that lower-cases exactly 'A'..'Z' and fixes every other
+// rune (fold_fn), the result is the bytewise ASCII fold of s.
+//@ extern strings.Map
+//@   pure
+//@   ensures fold_fn(mapping) && valid_utf8(s) ==> result == ascii_fold(s)
+
+//@ extern strings.ToLower
+//@   pure
+//@   ensures result == str_lower(s)
